@@ -10,13 +10,16 @@ namespace multi = boost::multi;
 
 static int g_fail_alloc_at = -1, g_allocs = 0, g_fail_elem_at = -1, g_elem_ops = 0, g_live = 0, g_foreign_dealloc = 0, g_outstanding = 0;
 static std::map<void*, int> g_owner;   // block -> allocator id
+struct Y;
 struct X {
 	int v = 0;
 	X() { if(g_elem_ops++ == g_fail_elem_at) throw std::runtime_error("ctor"); ++g_live; }
 	X(X const& o) : v{o.v} { if(g_elem_ops++ == g_fail_elem_at) throw std::runtime_error("copy"); ++g_live; }
+	X(struct Y const& o);
 	auto operator=(X const& o) -> X& { if(g_elem_ops++ == g_fail_elem_at) throw std::runtime_error("assign"); v = o.v; return *this; }
 	~X() { --g_live; }
 };
+struct Y { int v = 0; Y() { ++g_live; } Y(Y const& o) : v{o.v} { ++g_live; } ~Y() { --g_live; } };   // a second element type, convertible to X
 template<class T, bool P = false> struct Al {
 	using value_type = T; int id;
 	using propagate_on_container_copy_assignment = std::integral_constant<bool, P>;
@@ -30,6 +33,7 @@ template<class T, bool P = false> struct Al {
 	friend auto operator==(Al const& a, Al const& b) -> bool { return a.id == b.id; }
 	friend auto operator!=(Al const& a, Al const& b) -> bool { return a.id != b.id; }
 };
+X::X(Y const& o) : v{o.v} { if(g_elem_ops++ == g_fail_elem_at) throw std::runtime_error("convert"); ++g_live; }
 int main(int argc, char** argv) {
 	int sc = argc > 1 ? std::atoi(argv[1]) : 0;
 	if(sc == 1) {  // sizing constructor: element construction throws -> block leaked
@@ -70,8 +74,22 @@ int main(int argc, char** argv) {
 		try { a.reextent(multi::extensions_t<1>{4}); } catch(std::exception&) {}
 		std::printf("reextent failure: outstanding = %d (1 expected), live = %d (3 expected)\n", g_outstanding, g_live); return (g_outstanding != 1 || g_live != 3) ? 0 : 1;
 	}
-	if(sc == 8) {  // reextent to an extent with a zero inner size aborts on a library assertion in debug builds
+	if(sc == 8) {  // FIXED by /repo 8d7d439: reextent to an extent with a zero inner size used to abort on a library assertion in debug builds
 		multi::array<int, 2> a({2, 2}, 7); a.reextent({1, 0}); std::printf("reextent({1,0}) returned, size %ld\n", long(a.size())); return 1;
+	}
+	if(sc == 9) {  // iterator-range constructor: element copy throws -> block leaked (same defect class as scenario 2)
+		multi::array<X, 1, Al<X>> b(multi::extensions_t<1>{4}, Al<X>{1}); g_elem_ops = 0; g_fail_elem_at = 2;
+		try { multi::array<X, 1, Al<X>> a(b.begin(), b.end(), Al<X>{1}); } catch(std::exception&) {}
+		std::printf("range ctor failure: outstanding blocks = %d (1 expected), live = %d (4 expected)\n", g_outstanding, g_live); return (g_outstanding != 1 || g_live != 4) ? 0 : 1;
+	}
+	if(sc == 10) {  // converting assignment (array<Y> -> array<X>) to different extents: the temporary is built with a default-constructed allocator and its block is adopted by `a` -> released through a's (unequal) allocator
+		{ multi::array<Y, 1, Al<Y>> b(multi::extensions_t<1>{4}, Al<Y>{2}); multi::array<X, 1, Al<X>> a(multi::extensions_t<1>{2}, Al<X>{1}); a = b; }
+		std::printf("converting assign: foreign deallocations = %d\n", g_foreign_dealloc); return g_foreign_dealloc ? 0 : 1;
+	}
+	if(sc == 11) {  // converting assignment: an element conversion throws -> the block of the temporary is leaked
+		multi::array<Y, 1, Al<Y>> b(multi::extensions_t<1>{4}, Al<Y>{0}); multi::array<X, 1, Al<X>> a(multi::extensions_t<1>{2}, Al<X>{0}); g_elem_ops = 0; g_fail_elem_at = 2;
+		try { a = b; } catch(std::exception&) {}
+		std::printf("converting assign failure: outstanding blocks = %d (2 expected), live = %d (6 expected)\n", g_outstanding, g_live); return (g_outstanding != 2 || g_live != 6) ? 0 : 1;
 	}
 	return 2;
 }
